@@ -4,7 +4,7 @@ import os, time, json
 import z3
 from vlib import core
 from mirsym import Panic, Unknown, Abort
-from explore import explore, Acc
+from explore import explore, explore_levels, Acc, StopAtBoundary
 from props.srvworld import SrvCtx, World
 from models import EndOfSchedule
 
@@ -111,9 +111,11 @@ def chk_c05(w):
     if w.stopped: return
     paused = w.real_paused()
     tmo = w.field(w.accept, 'Accept', 'timeout').v
+    prev_dl = w.__dict__.setdefault('prev_dl', {})
+    no_cmd_pending = w.mw.pending == 0 and not w.mq.value.v.items
     for l, lo in enumerate(w.listeners):
         dl = w.field(w.sockets.items[l].v, 'ServerSocketInfo', 'timeout').v
-        if not paused and quiescent(w) or (not paused and w.mw.pending == 0 and not w.mq.value.v.items):
+        if not paused and no_cmd_pending:
             # (2) not stranded: registered, or in back-off with the poll timeout armed
             stranded = (not lo.registered) and not (dl.variant == 'Some' and tmo.variant == 'Some')
             acc.violated(ex, 'C05/listener_never_stranded', stranded, hist=w.hist,
@@ -123,21 +125,23 @@ def chk_c05(w):
             acc.wit['c05_backoff_armed'] += 1
             if tmo.variant == 'Some':
                 # (4) the poll timeout never exceeds 510 ms while a back-off is armed
-                acc.violated(ex, 'C05/backoff_poll_timeout_at_most_510ms', z3.UGT(tmo.f[0].v, U64(510)), hist=w.hist)
-            if not paused:
-                # (3) a deadline at or before `now` cannot survive process_timeout (which just ran)
-                acc.violated(ex, 'C05/listener_reregistered_once_deadline_passed', z3.And(z3.ULE(d, ex.clock), z3.BoolVal(not lo.registered)), hist=w.hist,
+                acc.violated(ex, 'C05/backoff_poll_timeout_at_most_510ms', tmo.f[0].v > 510, hist=w.hist)
+            if not paused and not lo.registered:
+                # (3) a deadline at or before `now` cannot survive process_timeout (which has just run)
+                acc.violated(ex, 'C05/listener_reregistered_once_deadline_passed', d <= ex.clock, hist=w.hist,
                              what='listener %d: deadline passed, process_timeout ran, still not registered' % l)
-            if l in w.backoff_new:
-                # (4) roughly 500 ms: 500 <= deadline - now <= 510 at arming time (clock does not advance inside an iteration)
-                acc.violated(ex, 'C05/backoff_is_about_500ms', z3.Or(z3.ULT(d - ex.clock, U64(500)), z3.UGT(d - ex.clock, U64(510))), hist=w.hist)
-        if lo.registered and paused:
-            acc.violated(ex, 'C05/no_listener_registered_while_paused', True, hist=w.hist, what='listener %d registered while paused' % l)
+            if not prev_dl.get(l):
+                # (4) roughly 500 ms: 500 <= deadline - now <= 510 at arming time (the clock does not advance inside an iteration)
+                acc.violated(ex, 'C05/backoff_is_about_500ms', z3.Or(d - ex.clock < 500, d - ex.clock > 510), hist=w.hist)
+        else:
+            if prev_dl.get(l) and lo.registered and not paused: acc.wit['c05_reregistered_after_backoff'] += 1
+        prev_dl[l] = dl.variant == 'Some'
+        if paused and no_cmd_pending:
+            acc.violated(ex, 'C05/no_listener_registered_while_paused', bool(lo.registered), hist=w.hist, what='listener %d registered while paused' % l)
         if lo.kind == 'Uds' and lo.registered:
-            acc.violated(ex, 'C05/registered_unix_listener_is_reachable_by_path', not lo.path_linked, key='C05/registered_unix_listener_is_reachable_by_path',
-                         hist=w.hist, what='Unix-domain listener %d is registered again but its socket file was unlinked by deregister()' % l)
-        if lo.registered and not paused and dl.variant == 'None' and w.backoff_seen.get(l): acc.wit['c05_reregistered_after_backoff'] += 1
-    w.backoff_new = set()
+            acc.violated(ex, 'C05/registered_unix_listener_is_reachable_by_path', not lo.path_linked, hist=w.hist,
+                         what='Unix-domain listener %d is registered again but its socket file was unlinked by deregister()' % l)
+            acc.wit['c05_uds_registered'] += 1
 
 
 CHECKS = {'C01': chk_c01, 'C02': chk_c02, 'C03': chk_c03, 'C04': chk_c04, 'C05': chk_c05}
@@ -170,7 +174,7 @@ ENV_MODELS = ['mio::Poll::poll = environment turn (solver-chosen actions + event
               'std Mutex/VecDeque/Vec/Arc/AtomicUsize models', 'actix_rt::time::Instant = virtual clock (ms)', 'tracing macros = no-op']
 
 
-def run_accept_property(rep, pid, runs, tier, seed, diff_cfgs=None, obligations_prefix=None, wall_cap=None):
+def run_accept_property(rep, pid, runs, tier, seed, diff_cfgs=None, obligations_prefix=None, wall_cap=None, also=()):
     """runs: list of (label, cfg). Explores each world, replays every violation natively, fills the report."""
     from props import srvnative
     rep.engines.add('mirsym (engine S) + z3 %s' % z3.get_version_string())
@@ -188,11 +192,15 @@ def run_accept_property(rep, pid, runs, tier, seed, diff_cfgs=None, obligations_
     prefix = obligations_prefix or (pid + '/')
     for label, cfg in runs:
         t0 = time.time()
-        acc = explore(ctx.mk, make_body(ctx, cfg), seed=seed, seed_paths=400, wall_cap=wall_cap)
+        if cfg.get('levels', True):
+            acc = explore_levels(ctx.mk, make_body(ctx, cfg), cfg['turns'] + 1, seed=seed, wall_cap=wall_cap)
+            rep.bounds.setdefault('distinct_states_per_level', {})[label] = acc.level_counts
+        else:
+            acc = explore(ctx.mk, make_body(ctx, cfg), seed=seed, seed_paths=400, wall_cap=wall_cap)
         rep.bounds[label] = {k: v for k, v in cfg.items() if k != 'checks'}
         rep.bounds[label]['paths'] = acc.paths; rep.bounds[label]['wall_s'] = round(time.time() - t0, 1)
         # only this property's obligations are reported by this check (others belong to their own checks)
-        keep = lambda name: name.startswith(prefix) or name.startswith('accept_loop')
+        keep = lambda name: name.startswith(prefix) or name.startswith('accept_loop') or any(name.startswith(a) for a in also)
         acc.obl = type(acc.obl)({k: v for k, v in acc.obl.items() if keep(k)})
         acc.fail = type(acc.fail)({k: v for k, v in acc.fail.items() if keep(k)})
         viol = {k: v for k, v in acc.viol.items() if keep(v['obligation'])}
